@@ -270,7 +270,9 @@ package lexer
 //@        && !(dirKeyAt(l.input, old(l.pos)) && byteAt(l.input, old(l.pos)-1) != '\\') ==> result.Type == token.HTML
 //@   goal text-mode-code: old(l.isHTML) && result.Type != token.HTML && result.Type != token.EOF
 //@        ==> bracesAt(l.input, old(l.pos)) || dirKeyAt(l.input, old(l.pos))
-//@   goal eof: result.Type == token.EOF ==> l.pos == len(l.input) && l.startPos == l.pos
+//@   goal eof-start: result.Type == token.EOF ==> l.startPos == l.pos
+//@   goal eof-nul: result.Type == token.EOF ==> l.pos >= len(l.input)
+//@   goal eof-at-end: result.Type == token.EOF ==> l.pos <= len(l.input)
 //@   goal gap-code: old(!l.isHTML) ==> forall(i, old(l.pos), l.startPos, isSpaceC(byteAt(l.input, i)))
 //@        || exists(j, old(l.pos), l.startPos, commentAt(l.input, j))
 //@   goal gap-text: old(l.isHTML) && live(result.Type) ==> l.startPos == old(l.pos) || commentAt(l.input, old(l.pos))
